@@ -160,6 +160,8 @@ def c08(tier):
     # preemption inside process with TWO events (one elapsed, one falling due inside the process call)
     for ops in (((0, 0, 2, 3),) if tier == 'quick' else ((0, 0, 2, 3), (0, 0, 3), (0, 0, 2, 3, 3), (0, 0, 2, 3, 1), (0, 2, 0, 3), (0, 0, 2, 2, 3))):
         out.append(tmr_inst('tmr_isr3_p2_%s' % ''.join('CDTP'[o] for o in ops), 2, len(ops), 3, ops, tmax=2, weight=5))
+    for ops in (((0, 0, 1), (0, 0, 1, 3)) if tier == 'quick' else ((0, 0, 1), (0, 0, 1, 3), (0, 0, 1, 1), (0, 0, 0, 1))):
+        out.append(tmr_inst('tmr_isr1_p3_%s' % ''.join('CDTP'[o] for o in ops), 3, len(ops), 1, ops, tmax=3, weight=6))
     for isr, P, K, tmax in cfg:
         for ops in op_seqs(K):
             if isr == 2 and 3 not in ops:
@@ -472,8 +474,14 @@ def c11(tier):
                                'CONmtGetHbEvents': E + 2, 'COTmrDelete': E + 1, 'COTmrInsert': E + 1, 'COTmrRemove': E + 2, 'COTmrProcess': E + 1, 'check_chain': E + 2,
                                'COTmrReset': E + 1, 'CoVerifTmrPool': E + 1,
                                'COSyncInit': 4, 'COTmrClear': 4})
-                    out.append(Inst('hbc_step_e%d_s%s_r%d_%s%s' % (E, ''.join(str(x) for x in sh) or '0', run, ops[op], ('%d' % wk) if op in (0, 2) else ''), 'hbc_step.c', defs,
-                                    unwind=20, unwindset=uw, objbits=10, harness_only=['OP', 'WK', 'SHAPE', 'SHAPEN', 'RUN', 'TK'], family='hbc_step',
+                    nbs = (11,)
+                    if op in (1, 2) and len(sh) == E and (op == 1 or wk == 1):
+                        nbs = (11, 128 - E, 1)          # node ids at both ends of the range 1..127
+                    for nb in nbs:
+                        d2 = dict(defs)
+                        d2['NODE_BASE'] = nb
+                        out.append(Inst('hbc_step_e%d_s%s_r%d_%s%s%s' % (E, ''.join(str(x) for x in sh) or '0', run, ops[op], ('%d' % wk) if op in (0, 2) else '', ('_nb%d' % nb) if nb != 11 else ''), 'hbc_step.c', d2,
+                                    unwind=20, unwindset=uw, objbits=10, harness_only=['OP', 'WK', 'SHAPE', 'SHAPEN', 'RUN', 'TK', 'NODE_BASE'], family='hbc_step',
                                     bounds='%d consumer entries, active chain %s, running monitors mask %d, operation %s%s; node ids, times 1..5 ms, counters, states symbolic' % (
                                         E, list(sh), run, ops[op], (' to entry %d' % wk) if op == 0 else ((' of %d ticks' % wk) if op == 2 else ''))))
     return out
@@ -513,6 +521,14 @@ def c10(tier):
             seqs.append('N' + ''.join(t) + 'T')
     valsets = [(1, 1, 1, 1, 1, 1, 1), (3, 2, 1, 2, 3, 1, 2), (0, 1, 0, 2, 2, 0, 1)] if tier == 'quick' else \
               [(1, 1, 1, 1, 1, 1, 1), (3, 2, 1, 2, 3, 1, 2), (0, 1, 0, 2, 2, 0, 1), (2, 2, 2, 2, 2, 2, 2), (1, 3, 3, 1, 0, 2, 3), (2, 0, 2, 0, 1, 3, 0)]
+    # a timer in front of the heartbeat is deleted after part of its time elapsed (TPDO event timer restarted by a trigger,
+    # application timer deleted); heartbeat switched on only after event-time writes (the new timer reuses freed ids)
+    out.append(hbp_inst('NEWTGTTT', 2, vals=(0, 2, 3, 0, 0, 0, 0, 0)))
+    out.append(hbp_inst('CWTDTTT', 2, vals=(2, 3, 0, 0, 0, 0, 0)))
+    out.append(hbp_inst('CWTTDTT', 2, vals=(3, 3, 0, 0, 0, 0, 0)))
+    for sq, vs in (('NEEWGTT', (0, 1, 0, 2, 0, 0, 0)), ('NEEWGTT', (0, 2, 0, 1, 0, 0, 0)), ('NEIEWGTT', (0, 1, 1, 0, 2, 0, 0, 0)), ('NGEWGTTT', (0, 0, 0, 2, 0, 0, 0, 0)),
+                   ('NEPWNTT', (0, 1, 0, 2, 0, 0, 0)), ('NEGEWTGT', (0, 2, 0, 0, 1, 0, 0, 0))):
+        out.append(hbp_inst(sq, 0, vals=vs))
     for sq in seqs:
         for hb0 in ((2,) if tier == 'quick' else (1, 2, 0)):
             needs = any(c in sq for c in 'WAEICYX')
